@@ -163,3 +163,16 @@ Definition bw_cert_ok {V} (veqb : V -> V -> bool) (A : bw_automaton V) (pvs : li
 Definition bw_cert_count {V} (A : bw_automaton V) (pvs : list (list N * V)) : N :=
   let sget := bw_sget V A in
   cert_count V (bwc_child sget) byte_labels pvs.
+
+(* ---- C07: a range check that makes every unchecked read of the byte-wise search in-range ----
+   (array length a positive multiple of 256; every base is None or below the length; every fail
+   below the length; every output position / parent at most the number of outputs).
+   Proofs/BwSafe.v: check = true -> no search method reaches a UB branch on any bytes. *)
+Definition bw_slot_ok (len nout : N) (s : bstate) : bool :=
+  ((b_base s =? 0) || (b_base s <? len)) && (b_fail s <? len) && (b_outpos s <=? nout).
+Definition bw_safe_b {V} (A : bw_automaton V) : bool :=
+  let len := N.of_nat (length (bw_states A)) in
+  let nout := N.of_nat (length (bw_outputs A)) in
+  (0 <? len) && (len mod 256 =? 0)
+  && forallb (bw_slot_ok len nout) (bw_states A)
+  && forallb (fun o => o_parent o <=? nout) (bw_outputs A).
